@@ -10,7 +10,7 @@ Lemma ssl_not_http e : is_SSLError e = true -> is_HttpProtocolException e = fals
 Proof. destruct e; simpl; congruence. Qed.
 
 Lemma take_len l : take (len l) l = l.
-Proof. unfold take, len. rewrite Nat2N.id. apply firstn_all. Qed.
+Proof. pose proof (take_app_exact l []) as H. rewrite app_nil_r in H. exact H. Qed.
 
 Section PkiFacts.
   Variable is_ip_literal : bytes -> bool.
@@ -113,17 +113,18 @@ Section Facts.
                                up s' = UpTls /\ peer s' = p /\ tr s' = tr s ++ [EUpstreamWrap (policy_call fl h)]
     | Ret true => exists h e, text_ host = Ok h /\ handshake (policy_call fl h) = HsRaise e /\ is_SSLError e = true /\
                               up s' = UpDead /\ tr s' = tr s ++ [EUpstreamWrap (policy_call fl h)]
-    | Raise e => (up s' = up s /\ tr s' = tr s) \/
+    | Raise e => ((up s = UpNone \/ exists e0, text_ host = Err e0) /\ up s' = up s /\ tr s' = tr s) \/
                  (exists h, text_ host = Ok h /\ handshake (policy_call fl h) = HsRaise e /\ is_SSLError e = false /\
                             up s' = UpDead /\ tr s' = tr s ++ [EUpstreamWrap (policy_call fl h)])
-    end.
+    end /\
+    (r <> Ret false -> peer s' = peer s).
   Proof.
     unfold wrap_server, server_conn_wrap, catch, mbind, get, assert_, text_m, emit, set_up, set_peer, ret, raise, policy_call.
     intros H.
     destruct (insecure_tls_interception fl);
       repeat (case_match_hyp H; simpl in H); inv H; simpl;
       repeat match goal with H : is_SSLCertVerificationError _ = true |- _ => apply certverif_is_ssl in H end;
-      (repeat split; try reflexivity; eauto 10).
+      (repeat split; try reflexivity; try congruence; eauto 10).
   Qed.
 
   (* ================================================================ wrap_client *)
@@ -288,5 +289,584 @@ Section Facts.
     destruct (Step _ _ _ _ _ t1 G2 H2 Fr1 Ht1 Hall1 Hfs1) as (Fr2 & t2 & Ht2 & Hall2 & Hfs2 & _).
     destruct (Step _ _ _ _ _ t2 G3 H Fr2 Ht2 Hall2 Hfs2) as (Fr3 & t3 & Ht3 & Hall3 & Hfs3 & Hpost).
     destruct Fr3 as (? & ? & ? & ? & ? & ? & ?). repeat split; auto. exists t3. repeat split; auto.
+  Qed.
+
+  Lemma generate_upstream_certificate_spec fl host h certificate s s' r :
+    text_ host = Ok h ->
+    generate_upstream_certificate is_ip_literal openssl_run fl host certificate s = (s', r) ->
+    cl s' = cl s /\ cl_buf s' = cl_buf s /\ cl_wire s' = cl_wire s /\ up s' = up s /\
+    up_buf s' = up_buf s /\ up_wire s' = up_wire s /\ peer s' = peer s /\
+    exists t, tr s' = tr s ++ t /\ Forall (openssl_effect fl h) t /\
+      (forall p, mem_path p (fs s') = true ->
+                 mem_path p (fs s) = true \/
+                 exists c, In (EOpenssl c) t /\ bytes_eqb p (cmd_out c) = true /\ openssl_run c = RTrue) /\
+      (forall path, r = Ret path ->
+                    exists dir, ca_cert_dir fl = Some dir /\ path = generated_cert_file_path dir h /\
+                                mem_path path (fs s') = true) /\
+      (forall dir, ca_cert_dir fl = Some dir -> mem_path (generated_cert_file_path dir h) (fs s) = true ->
+                   t = [] /\ fs s' = fs s).
+  Proof.
+    intros Htext. unfold generate_upstream_certificate, text_m. rewrite Htext.
+    assert (Hnil : forall A (l : list A), l = l ++ []) by (intros; now rewrite app_nil_r).
+    assert (Htriv : forall s0 e, cl s0 = cl s0 /\ cl_buf s0 = cl_buf s0 /\ cl_wire s0 = cl_wire s0 /\ up s0 = up s0 /\
+              up_buf s0 = up_buf s0 /\ up_wire s0 = up_wire s0 /\ peer s0 = peer s0 /\
+              exists t, tr s0 = tr s0 ++ t /\ Forall (openssl_effect fl h) t /\
+                (forall p, mem_path p (fs s0) = true -> mem_path p (fs s0) = true \/
+                   exists c, In (EOpenssl c) t /\ bytes_eqb p (cmd_out c) = true /\ openssl_run c = RTrue) /\
+                (forall path, @Raise bytes e = Ret path ->
+                    exists dir, ca_cert_dir fl = Some dir /\ path = generated_cert_file_path dir h /\
+                                mem_path path (fs s0) = true) /\
+                (forall dir, ca_cert_dir fl = Some dir -> mem_path (generated_cert_file_path dir h) (fs s0) = true ->
+                   t = [] /\ fs s0 = fs s0)).
+    { intros s0 e. repeat split; auto. exists []. split; [apply Hnil|]. split; [constructor|].
+      split; [auto|]. split; [discriminate|auto]. }
+    intros H.
+    match type of H with (if ?c then _ else _) _ = _ => destruct c end; [inv H; apply Htriv|].
+    destruct (ca_cert_dir fl) as [dir|] eqn:Hdir; [|inv H; apply Htriv].
+    unfold mbind at 1, ret at 1 in H. unfold mbind at 1, get at 1 in H.
+    destruct (mem_path (generated_cert_file_path dir h) (fs s)) eqn:Hm; simpl in H.
+    - unfold mbind, ret in H. inv H. repeat split; auto. exists []. split; [apply Hnil|]. split; [constructor|].
+      split; [auto|]. split.
+      + intros path Hp. inv Hp. eauto.
+      + auto.
+    - apply mbind_inv in H as [(s1 & [] & H1 & H)|(e & H1 & ->)].
+      + eapply gen_ca_signed_certificate_spec in H1 as (? & ? & ? & ? & ? & ? & ? & t & Ht & Hall & Hgrow & Hpost); eauto.
+        unfold ret in H. inv H. repeat split; auto. exists t.
+        split; [assumption|]. split; [assumption|]. split; [assumption|]. split.
+        * intros path Hp. inv Hp. exists dir. auto.
+        * intros d Hd Hc. inv Hd. congruence.
+      + eapply gen_ca_signed_certificate_spec in H1 as (? & ? & ? & ? & ? & ? & ? & t & Ht & Hall & Hgrow & Hpost); eauto.
+        repeat split; auto. exists t.
+        split; [assumption|]. split; [assumption|]. split; [assumption|]. split.
+        * discriminate.
+        * intros d Hd Hc. inv Hd. congruence.
+  Qed.
+
+  Definition client_wrap_effect (keyfile certfile : bytes) (e : effect) : Prop :=
+    match e with
+    | EClientFlush _ => True
+    | EClientWrap k c => k = keyfile /\ c = certfile
+    | _ => False
+    end.
+
+  Lemma client_conn_wrap_spec keyfile certfile s s' r :
+    client_conn_wrap client_flush client_handshake keyfile certfile s = (s', r) ->
+    fs s' = fs s /\ up s' = up s /\ up_buf s' = up_buf s /\ up_wire s' = up_wire s /\ peer s' = peer s /\
+    (exists t, tr s' = tr s ++ t /\ Forall (client_wrap_effect keyfile certfile) t /\
+               (r = Ret tt -> In (EClientWrap keyfile certfile) t)) /\
+    (exists w, cl_wire s' = cl_wire s ++ w /\ Forall (fun x => fst x = false) w /\
+               concat (map snd w) ++ concat (cl_buf s') = concat (cl_buf s)) /\
+    (r = Ret tt -> cl s' = ClTls /\ client_handshake keyfile certfile = None) /\
+    (r <> Ret tt -> cl s' = cl s \/ cl s' = ClDead).
+  Proof.
+    unfold client_conn_wrap. intros H.
+    apply mbind_inv in H as [(s1 & [] & H1 & H)|(e & H1 & ->)].
+    - apply client_conn_flush_spec in H1 as (A1 & A2 & A3 & A4 & A5 & A6 & (t & Ht & Hall) & (w & Hw & Hplain & Hcat)).
+      unfold mbind, emit, set_cl, raise in H.
+      destruct (client_handshake keyfile certfile) as [e|] eqn:Hhs; simpl in H; inv H; simpl;
+        (repeat split; auto; try congruence);
+        try (exists (t ++ [EClientWrap keyfile certfile]); split; [rewrite Ht; now rewrite app_assoc|split;
+               [apply Forall_app; split; [eapply Forall_impl; [|exact Hall]; intros []; simpl; tauto|repeat constructor]
+               |intros _; apply in_or_app; right; now left]]);
+        try (exists w; repeat split; auto).
+    - apply client_conn_flush_spec in H1 as (A1 & A2 & A3 & A4 & A5 & A6 & (t & Ht & Hall) & (w & Hw & Hplain & Hcat)).
+      repeat split; auto; try discriminate.
+      + exists t. split; [assumption|split; [eapply Forall_impl; [|exact Hall]; intros []; simpl; tauto|discriminate]].
+      + exists w; repeat split; auto.
+  Qed.
+
+  Definition plain_wire (w : list (bool * bytes)) : Prop := Forall (fun x => fst x = false) w.
+
+  Lemma wrap_client_spec fl host h s s' r :
+    text_ host = Ok h ->
+    wrap_client_ fl host s = (s', r) ->
+    up s' = up s /\ up_buf s' = up_buf s /\ up_wire s' = up_wire s /\ peer s' = peer s /\
+    exists t, tr s' = tr s ++ t /\ Forall (client_side_effect fl h) t /\
+      (forall p, mem_path p (fs s') = true ->
+                 mem_path p (fs s) = true \/
+                 exists c, In (EOpenssl c) t /\ bytes_eqb p (cmd_out c) = true /\ openssl_run c = RTrue) /\
+      (exists w, cl_wire s' = cl_wire s ++ w /\ plain_wire w /\
+                 concat (map snd w) ++ concat (cl_buf s') = concat (cl_buf s)) /\
+      (r = Ret false ->
+       cl s' = ClTls /\ up s = UpTls /\
+       exists k cert, In (EClientWrap k cert) t /\ client_handshake k cert = None /\ mem_path cert (fs s') = true) /\
+      (r <> Ret false -> cl s' = cl s \/ cl s' = ClDead) /\
+      (forall dir, ca_cert_dir fl = Some dir -> mem_path (generated_cert_file_path dir h) (fs s) = true ->
+                   Forall (fun e => is_openssl e = false) t).
+  Proof.
+    intros Htext. unfold wrap_client.
+    assert (Hnil : forall A (l : list A), l = l ++ []) by (intros; now rewrite app_nil_r).
+    assert (Htriv : forall (r0 : res bool), r0 <> Ret false ->
+              up s = up s /\ up_buf s = up_buf s /\ up_wire s = up_wire s /\ peer s = peer s /\
+              exists t, tr s = tr s ++ t /\ Forall (client_side_effect fl h) t /\
+                (forall p, mem_path p (fs s) = true -> mem_path p (fs s) = true \/
+                   exists c, In (EOpenssl c) t /\ bytes_eqb p (cmd_out c) = true /\ openssl_run c = RTrue) /\
+                (exists w, cl_wire s = cl_wire s ++ w /\ plain_wire w /\
+                           concat (map snd w) ++ concat (cl_buf s) = concat (cl_buf s)) /\
+                (r0 = Ret false -> cl s = ClTls /\ up s = UpTls /\
+                   exists k cert, In (EClientWrap k cert) t /\ client_handshake k cert = None /\ mem_path cert (fs s) = true) /\
+                (r0 <> Ret false -> cl s = cl s \/ cl s = ClDead) /\
+                (forall dir, ca_cert_dir fl = Some dir -> mem_path (generated_cert_file_path dir h) (fs s) = true ->
+                   Forall (fun e => is_openssl e = false) t)).
+    { intros r0 Hr0. repeat split; auto. exists []. split; [apply Hnil|]. split; [constructor|]. split; [auto|].
+      split; [exists []; split; [apply Hnil|split; [constructor|reflexivity]]|].
+      split; [intros; contradiction|]. split; [auto|]. intros; constructor. }
+    unfold mbind at 1, get at 1. unfold assert_.
+    intros H.
+    apply mbind_inv in H as [(s1 & [] & H1 & H)|(e & H1 & ->)].
+    2:{ unfold ret, raise in H1. match type of H1 with (if ?c then _ else _) _ = _ => destruct c end; inv H1.
+        apply Htriv; discriminate. }
+    assert (s1 = s) as -> by (unfold ret, raise in H1; match type of H1 with (if ?c then _ else _) _ = _ => destruct c end; now inv H1).
+    clear H1.
+    apply mbind_inv in H as [(s1 & [] & H1 & H)|(e & H1 & ->)].
+    2:{ unfold ret, raise in H1. match type of H1 with (if ?c then _ else _) _ = _ => destruct c end; inv H1.
+        apply Htriv; discriminate. }
+    assert (s1 = s /\ up s = UpTls) as (-> & Hup).
+    { unfold ret, raise in H1. match type of H1 with (if ?c then _ else _) _ = _ => destruct c eqn:Hc end; inv H1.
+      split; [reflexivity|].
+      match goal with Hc : match up ?x with _ => _ end = true |- _ => destruct (up x); try discriminate; reflexivity end. }
+    clear H1.
+    destruct (ca_signing_key_file fl) as [keyfile|] eqn:Hkey; [|inv H; apply Htriv; discriminate].
+    unfold catch in H.
+    match type of H with (match ?m with _ => _ end) = _ => destruct m as [s2 r2] eqn:Hm end.
+    apply mbind_inv in Hm as [(s3 & cert & H3 & Hm)|(e & H3 & ->)].
+    - (* certificate available *)
+      eapply generate_upstream_certificate_spec in H3 as (A1 & A2 & A3 & A4 & A5 & A6 & A7 & t1 & Ht1 & Hall1 & Hgrow1 & Hpath & Hcache); eauto.
+      destruct (Hpath _ eq_refl) as (dir & Hdir & -> & Hexists).
+      apply mbind_inv in Hm as [(s4 & [] & H4 & Hm)|(e & H4 & ->)].
+      + apply client_conn_wrap_spec in H4 as (B1 & B2 & B3 & B4 & B5 & (t2 & Ht2 & Hall2 & Hin2) & (w & Hw & Hplain & Hcat) & Hok & _).
+        unfold ret in Hm. inv Hm. inv H.
+        destruct (Hok eq_refl) as (Hcl & Hhs).
+        split; [congruence|]. split; [congruence|]. split; [congruence|]. split; [congruence|].
+        exists (t1 ++ t2). split; [rewrite Ht2, Ht1; now rewrite app_assoc|].
+        split.
+        { apply Forall_app; split.
+          - eapply Forall_impl; [|exact Hall1]. intros [] He; simpl in *; tauto.
+          - eapply Forall_impl; [|exact Hall2]. intros [] He; simpl in *; try tauto.
+            destruct He as (-> & ->). split; [assumption|]. exists dir. auto. }
+        split.
+        { intros p Hp. rewrite B1 in Hp. apply Hgrow1 in Hp as [Hp|(c & Hin & Hc)]; [now left|right].
+          exists c. split; [apply in_or_app; now left|assumption]. }
+        split; [exists w; split; [congruence|split; [assumption|congruence]]|].
+        split.
+        { intros _. split; [assumption|]. split; [assumption|].
+          exists keyfile, (generated_cert_file_path dir h). split; [apply in_or_app; right; auto|].
+          split; [assumption|]. now rewrite B1. }
+        split; [intros Hne; now elim Hne|].
+        intros d Hd Hc. rewrite Hdir in Hd. inv Hd. destruct (Hcache _ Hdir Hc) as (-> & _). simpl.
+        eapply Forall_impl; [|exact Hall2]. intros [] He; simpl in *; tauto.
+      + (* flush or handshake raised *)
+        apply client_conn_wrap_spec in H4 as (B1 & B2 & B3 & B4 & B5 & (t2 & Ht2 & Hall2 & Hin2) & (w & Hw & Hplain & Hcat) & _ & Hbad).
+        assert (Hs' : (s', r) = (s2, Raise e) \/ (s', r) = (s2, Ret true)).
+        { repeat (case_match_hyp H); inv H; auto. }
+        assert (Hcommon :
+          up s2 = up s /\ up_buf s2 = up_buf s /\ up_wire s2 = up_wire s /\ peer s2 = peer s /\
+          exists t, tr s2 = tr s ++ t /\ Forall (client_side_effect fl h) t /\
+            (forall p, mem_path p (fs s2) = true -> mem_path p (fs s) = true \/
+               exists c, In (EOpenssl c) t /\ bytes_eqb p (cmd_out c) = true /\ openssl_run c = RTrue) /\
+            (exists w, cl_wire s2 = cl_wire s ++ w /\ plain_wire w /\
+                       concat (map snd w) ++ concat (cl_buf s2) = concat (cl_buf s)) /\
+            (cl s2 = cl s \/ cl s2 = ClDead) /\
+            (forall dir, ca_cert_dir fl = Some dir -> mem_path (generated_cert_file_path dir h) (fs s) = true ->
+               Forall (fun e => is_openssl e = false) t)).
+        { split; [congruence|]. split; [congruence|]. split; [congruence|]. split; [congruence|].
+          exists (t1 ++ t2). split; [rewrite Ht2, Ht1; now rewrite app_assoc|].
+          split.
+          { apply Forall_app; split.
+            - eapply Forall_impl; [|exact Hall1]. intros [] He; simpl in *; tauto.
+            - eapply Forall_impl; [|exact Hall2]. intros [] He; simpl in *; try tauto.
+              destruct He as (-> & ->). split; [assumption|]. exists dir. auto. }
+          split.
+          { intros p Hp. rewrite B1 in Hp. apply Hgrow1 in Hp as [Hp|(c & Hin & Hc)]; [now left|right].
+            exists c. split; [apply in_or_app; now left|assumption]. }
+          split; [exists w; split; [congruence|split; [assumption|congruence]]|].
+          split; [destruct (Hbad ltac:(discriminate)) as [Hc|Hc]; [left; congruence|now right]|].
+          intros d Hd Hc. rewrite Hdir in Hd. inv Hd. destruct (Hcache _ Hdir Hc) as (-> & _). simpl.
+          eapply Forall_impl; [|exact Hall2]. intros [] He; simpl in *; tauto. }
+        destruct Hcommon as (C1 & C2 & C3 & C4 & t & Ct & Call & Cgrow & Cw & Ccl & Ccache).
+        destruct Hs' as [Hs'|Hs']; inv Hs'; (repeat split; auto); exists t;
+          (split; [assumption|]); (split; [assumption|]); (split; [assumption|]); (split; [assumption|]);
+          (split; [discriminate|]); split; auto.
+    - (* certificate generation raised *)
+      eapply generate_upstream_certificate_spec in H3 as (A1 & A2 & A3 & A4 & A5 & A6 & A7 & t1 & Ht1 & Hall1 & Hgrow1 & Hpath & Hcache); eauto.
+      assert (Hs' : (s', r) = (s2, Raise e) \/ (s', r) = (s2, Ret true)).
+      { repeat (case_match_hyp H); inv H; auto. }
+      assert (Hcommon :
+        up s2 = up s /\ up_buf s2 = up_buf s /\ up_wire s2 = up_wire s /\ peer s2 = peer s /\
+        exists t, tr s2 = tr s ++ t /\ Forall (client_side_effect fl h) t /\
+          (forall p, mem_path p (fs s2) = true -> mem_path p (fs s) = true \/
+             exists c, In (EOpenssl c) t /\ bytes_eqb p (cmd_out c) = true /\ openssl_run c = RTrue) /\
+          (exists w, cl_wire s2 = cl_wire s ++ w /\ plain_wire w /\
+                     concat (map snd w) ++ concat (cl_buf s2) = concat (cl_buf s)) /\
+          (cl s2 = cl s \/ cl s2 = ClDead) /\
+          (forall dir, ca_cert_dir fl = Some dir -> mem_path (generated_cert_file_path dir h) (fs s) = true ->
+             Forall (fun e => is_openssl e = false) t)).
+      { repeat split; auto. exists t1. split; [assumption|].
+        split; [eapply Forall_impl; [|exact Hall1]; intros [] He; simpl in *; tauto|].
+        split; [assumption|].
+        split; [exists []; split; [rewrite A3; apply Hnil|split; [constructor|simpl; congruence]]|].
+        split; [left; assumption|].
+        intros d Hd Hc. destruct (Hcache _ Hd Hc) as (-> & _). constructor. }
+      destruct Hcommon as (C1 & C2 & C3 & C4 & t & Ct & Call & Cgrow & Cw & Ccl & Ccache).
+      destruct Hs' as [Hs'|Hs']; inv Hs'; (repeat split; auto); exists t;
+        (split; [assumption|]); (split; [assumption|]); (split; [assumption|]); (split; [assumption|]);
+        (split; [discriminate|]); split; auto.
+  Qed.
+
+  (* ================================================================ on_request_complete *)
+  Definition K200 := PROXY_TUNNEL_ESTABLISHED_RESPONSE_PKT.
+
+  (* the state once the origin is connected and the 200 reply is queued *)
+  Definition connected_pst (fs0 : list bytes) (h : bytes) (port : N) : pst :=
+    mkPst [EConnect h port; EClientQueue K200] fs0 ClPlain [K200] [] UpPlain [] [] None.
+
+  Lemma orc_connected fl host h port answers fs0 :
+    text_ host = Ok h -> host <> [] -> port <> 0 -> connect h port = None ->
+    on_request_complete_ fl host port answers (init_pst fs0) =
+    if tls_intercept_enabled_ fl answers then intercept_ fl host (connected_pst fs0 h port)
+    else (connected_pst fs0 h port, Ret (RetBool false)).
+  Proof.
+    intros Htext Hhost Hport Hconn.
+    unfold on_request_complete, connect_upstream, client_queue, catch, mbind, text_m, emit, get, set_up, set_cl_buf, ret, raise, init_pst.
+    destruct host as [|x host']; [congruence|]. apply N.eqb_neq in Hport. rewrite Hport. simpl.
+    rewrite Htext. simpl. rewrite Hconn. simpl. destruct (tls_intercept_enabled_ fl answers); reflexivity.
+  Qed.
+
+  (* no origin connection: an HttpProtocolException (502 or nothing) or a decoding error, nothing else happened *)
+  Lemma orc_not_connected fl host port answers fs0 :
+    (host = [] \/ port = 0 \/ (exists e, text_ host = Err e) \/ exists h e, text_ host = Ok h /\ connect h port = Some e) ->
+    exists t e, on_request_complete_ fl host port answers (init_pst fs0) =
+                (mkPst t fs0 ClPlain [] [] UpNone [] [] None, Raise e) /\
+                (e = HttpProtocolException_ \/ e = ProxyConnectionFailed \/ e = UnicodeDecodeError_) /\
+                (t = [] \/ exists h, text_ host = Ok h /\ t = [EConnect h port]).
+  Proof.
+    intros Hcase.
+    unfold on_request_complete, connect_upstream, client_queue, catch, mbind, text_m, emit, get, set_up, set_cl_buf, ret, raise, init_pst.
+    destruct host as [|x host'].
+    { simpl. eexists _, _. split; [reflexivity|]. auto. }
+    destruct (port =? 0) eqn:Hp; simpl.
+    { eexists _, _. split; [reflexivity|]. auto. }
+    destruct (text_ (x :: host')) as [h|e0] eqn:Htext; simpl.
+    - destruct (connect h port) as [e|] eqn:Hc; simpl.
+      + eexists _, _. split; [reflexivity|]. split; [auto|]. right. eauto.
+      + exfalso. destruct Hcase as [Hc0|[Hc0|[(e & Hc0)|(h' & e & Hc0 & Hc1)]]]; try congruence.
+        apply N.eqb_neq in Hp. congruence.
+    - eexists _, _. split; [reflexivity|]. auto.
+  Qed.
+
+  Lemma intercept_unfold fl host s :
+    intercept_ fl host s =
+    match wrap_server_ fl host s with
+    | (s1, Ret true) => (s1, Ret (RetBool true))
+    | (s1, Ret false) =>
+        match wrap_client_ fl host s1 with
+        | (s2, Ret true) => (s2, Ret (RetBool true))
+        | (s2, Ret false) => (s2, Ret RetSocket)
+        | (s2, Raise e) => (s2, Raise e)
+        end
+    | (s1, Raise e) => (s1, Raise e)
+    end.
+  Proof.
+    unfold intercept, mbind, ret.
+    destruct (wrap_server_ fl host s) as [s1 [[]|e]]; try reflexivity.
+    destruct (wrap_client_ fl host s1) as [s2 [[]|e]]; reflexivity.
+  Qed.
+
+  (* ================================================================ the relay steps *)
+  Lemma map_snd_tag (b : bool) (l : list bytes) : map snd (map (fun d => (b, d)) l) = l.
+  Proof. induction l as [|x t IH]; simpl; congruence. Qed.
+
+  Lemma step_closed fl h ev : mode h = Closed -> step_ fl h ev = h.
+  Proof. intros Hm. unfold step. now rewrite Hm. Qed.
+
+  Lemma fold_closed fl evs h : mode h = Closed -> fold_left (step_ fl) evs h = h.
+  Proof. revert h. induction evs as [|ev t IH]; intros h Hm; simpl; [reflexivity|]. rewrite step_closed; auto. Qed.
+
+  (* no step performs any externally visible call other than socket I/O: the trace, the files and the
+     kind of both connections are fixed once the CONNECT request has been handled *)
+  Lemma step_fixed fl h ev :
+    tr (ps (step_ fl h ev)) = tr (ps h) /\ fs (ps (step_ fl h ev)) = fs (ps h) /\
+    cl (ps (step_ fl h ev)) = cl (ps h) /\ up (ps (step_ fl h ev)) = up (ps h).
+  Proof.
+    unfold step, on_client_data, read_from_descriptors, with_ps, with_mode, mbind, set_up_buf, set_cl_buf, set_cl_wire, set_up_wire.
+    destruct (mode h), ev; simpl; auto;
+      repeat (case_match_goal; simpl; auto).
+  Qed.
+
+  Lemma fold_fixed fl evs h :
+    tr (ps (fold_left (step_ fl) evs h)) = tr (ps h) /\ fs (ps (fold_left (step_ fl) evs h)) = fs (ps h) /\
+    cl (ps (fold_left (step_ fl) evs h)) = cl (ps h) /\ up (ps (fold_left (step_ fl) evs h)) = up (ps h).
+  Proof.
+    revert h. induction evs as [|ev t IH]; intros h; simpl; [auto|].
+    destruct (IH (step_ fl h ev)) as (-> & -> & -> & ->). apply step_fixed.
+  Qed.
+
+
+  (* ================================================================ bad upstream: nothing is relayed *)
+  Definition after_bad_handshake (fs0 : list bytes) (fl : flags) (h : bytes) (port : N) : pst :=
+    mkPst [EConnect h port; EClientQueue K200; EUpstreamWrap (policy_call fl h)] fs0 ClPlain [K200] [] UpDead [] [] None.
+
+  Lemma pst_eta s : s = mkPst (tr s) (fs s) (cl s) (cl_buf s) (cl_wire s) (up s) (up_buf s) (up_wire s) (peer s).
+  Proof. destruct s; reflexivity. Qed.
+
+  Lemma hc_handshake_raises fl host h port answers fs0 p0 r0 e :
+    text_ host = Ok h -> host <> [] -> port <> 0 -> connect h port = None ->
+    tls_intercept_enabled_ fl answers = true ->
+    handshake (policy_call fl h) = HsRaise e -> is_HttpProtocolException e = false ->
+    let h1 := handle_connect_ fl host port answers (init_h fs0 p0 r0) in
+    ps h1 = after_bad_handshake fs0 fl h port /\
+    (mode h1 = MustFlush \/ mode h1 = ReadsTeared \/ mode h1 = Closed).
+  Proof.
+    intros Htext Hhost Hport Hconn Hen Hhs Hnot. unfold handle_connect. simpl ps.
+    rewrite (orc_connected fl host h port answers fs0 Htext Hhost Hport Hconn), Hen, intercept_unfold.
+    destruct (wrap_server_ fl host (connected_pst fs0 h port)) as [s1 r1] eqn:Hws.
+    apply wrap_server_spec in Hws as (A1 & A2 & A3 & A4 & A5 & A6 & Hr & Hpeer). simpl in *.
+    assert (Hs1 : up s1 = UpDead -> tr s1 = [EConnect h port; EClientQueue K200; EUpstreamWrap (policy_call fl h)] ->
+                  peer s1 = None -> s1 = after_bad_handshake fs0 fl h port).
+    { intros Hu Ht Hp. rewrite (pst_eta s1). unfold after_bad_handshake. congruence. }
+    destruct r1 as [[]|e1].
+    - (* do_close *)
+      destruct Hr as (h' & e' & Ht' & Hh' & Hssl & Hup & Htr). rewrite Htext in Ht'. injection Ht' as <-.
+      assert (s1 = after_bad_handshake fs0 fl h port) as -> by (apply Hs1; auto; apply Hpeer; discriminate).
+      unfold after_handle_data_true. simpl. auto.
+    - destruct Hr as (h' & p & Ht' & Hh' & _). rewrite Htext in Ht'. injection Ht' as <-. congruence.
+    - destruct Hr as [([Hu|(e0 & He0)] & _)|(h' & Ht' & Hh' & Hssl & Hup & Htr)]; try discriminate; try congruence.
+      rewrite Htext in Ht'. injection Ht' as <-. rewrite Hhs in Hh'. injection Hh' as <-. rewrite Hnot.
+      assert (s1 = after_bad_handshake fs0 fl h port) as -> by (apply Hs1; auto; apply Hpeer; discriminate).
+      destruct (is_OSError e); unfold after_reads_teared; simpl; auto.
+  Qed.
+
+  (* the states from which no application byte can move any more *)
+  Definition dead_end (tr0 : trace) (h : hstate PS RS) : Prop :=
+    let s := ps h in
+    up s = UpDead /\ up_buf s = [] /\ up_wire s = [] /\ cl s = ClPlain /\ tr s = tr0 /\
+    map snd (cl_wire s) ++ cl_buf s = [K200] /\ plain_wire (cl_wire s) /\
+    (mode h = MustFlush \/ mode h = ReadsTeared \/ mode h = Closed) /\
+    (cl_buf s = [] -> mode h = Closed).
+
+  Lemma dead_end_step fl tr0 h ev :
+    dead_end tr0 h -> dead_end tr0 (step_ fl h ev) /\ (is_FlushClient ev = true -> mode (step_ fl h ev) = Closed).
+  Proof.
+    intros (Hup & Hub & Huw & Hcl & Htr & Hstream & Hplain & Hmode & Hdone).
+    assert (Hd : dead_end tr0 h) by (repeat split; assumption).
+    unfold step.
+    destruct (mode h) eqn:Hm.
+    - destruct Hmode as [|[|]]; discriminate.
+    - (* MustFlush *)
+      destruct ev; simpl.
+      + split; [unfold dead_end; rewrite Hm; repeat split; auto|discriminate].
+      + rewrite Hup. simpl. split; [unfold dead_end; rewrite Hm; repeat split; auto|discriminate].
+      + rewrite Hcl. destruct (cl_buf (ps h)) as [|b rest] eqn:Hbuf.
+        * specialize (Hdone eq_refl). congruence.
+        * split; [|reflexivity]. unfold dead_end, with_mode, with_ps, mbind, set_cl_wire, set_cl_buf. simpl.
+          rewrite map_app. simpl. rewrite map_snd_tag, app_nil_r. repeat split; auto.
+          apply Forall_app. split; [assumption|]. constructor; [reflexivity|].
+          clear. induction rest; constructor; auto.
+      + split; [unfold dead_end; rewrite Hm; repeat split; auto|discriminate].
+    - (* ReadsTeared *)
+      destruct ev; simpl.
+      + split; [unfold dead_end; rewrite Hm; repeat split; auto|discriminate].
+      + split; [unfold dead_end; rewrite Hm; repeat split; auto|discriminate].
+      + rewrite Hcl. destruct (cl_buf (ps h)) as [|b rest] eqn:Hbuf.
+        * specialize (Hdone eq_refl). congruence.
+        * split; [|reflexivity]. unfold dead_end, with_mode, with_ps, mbind, set_cl_wire, set_cl_buf. simpl.
+          rewrite map_app. simpl. rewrite map_snd_tag, app_nil_r. repeat split; auto.
+          apply Forall_app. split; [assumption|]. constructor; [reflexivity|].
+          clear. induction rest; constructor; auto.
+      + split; [unfold dead_end; rewrite Hm; repeat split; auto|discriminate].
+    - split; [assumption|auto].
+  Qed.
+
+  Lemma dead_end_fold fl tr0 evs h :
+    dead_end tr0 h ->
+    dead_end tr0 (fold_left (step_ fl) evs h) /\
+    (existsb is_FlushClient evs = true -> mode (fold_left (step_ fl) evs h) = Closed).
+  Proof.
+    revert h. induction evs as [|ev t IH]; intros h Hd; simpl; [split; [assumption|discriminate]|].
+    destruct (dead_end_step fl tr0 h ev Hd) as (Hd' & Hfl).
+    destruct (IH _ Hd') as (Hd'' & Hfl'). split; [assumption|].
+    intros Hex. apply orb_true_iff in Hex as [Hex|Hex]; [|auto].
+    rewrite fold_closed; auto.
+  Qed.
+
+  (* If the upstream handshake raises anything, no byte of client data is ever queued or sent to the
+     origin, the client only ever receives the proxy's own CONNECT reply in plaintext, no certificate
+     is generated or presented, and the connection is gone as soon as that reply is flushed. *)
+  Theorem no_relay_when_handshake_raises fl host h port answers fs0 p0 r0 evs e :
+    text_ host = Ok h -> host <> [] -> port <> 0 -> connect h port = None ->
+    tls_intercept_enabled_ fl answers = true ->
+    handshake (policy_call fl h) = HsRaise e -> is_HttpProtocolException e = false ->
+    let hf := run_ fl host port answers fs0 p0 r0 evs in
+    up_buf (ps hf) = [] /\ up_wire (ps hf) = [] /\
+    map snd (cl_wire (ps hf)) ++ cl_buf (ps hf) = [K200] /\ plain_wire (cl_wire (ps hf)) /\
+    cl (ps hf) = ClPlain /\ up (ps hf) = UpDead /\
+    tr (ps hf) = [EConnect h port; EClientQueue K200; EUpstreamWrap (policy_call fl h)] /\
+    mode hf <> Running /\
+    (existsb is_FlushClient evs = true -> mode hf = Closed).
+  Proof.
+    intros Htext Hhost Hport Hconn Hen Hhs Hnot. unfold run.
+    destruct (hc_handshake_raises fl host h port answers fs0 p0 r0 e Htext Hhost Hport Hconn Hen Hhs Hnot) as (Hps & Hmode).
+    set (h1 := handle_connect_ fl host port answers (init_h fs0 p0 r0)) in *.
+    assert (Hd : dead_end [EConnect h port; EClientQueue K200; EUpstreamWrap (policy_call fl h)] h1).
+    { unfold dead_end. rewrite Hps. unfold after_bad_handshake. simpl. repeat split; auto; try constructor. discriminate. }
+    destruct (dead_end_fold fl _ evs h1 Hd) as ((Hup & Hub & Huw & Hcl & Htr & Hstream & Hplain & Hm & _) & Hfl).
+    repeat split; auto. destruct Hm as [Hm|[Hm|Hm]]; rewrite Hm; discriminate.
+  Qed.
+
+  (* ... in particular when the origin's certificate does not verify and verification is on *)
+  Theorem no_relay_on_bad_upstream chain_ok name_ok fl host h port answers fs0 p0 r0 evs :
+    openssl_spec handshake chain_ok name_ok ->
+    insecure_tls_interception fl = false ->
+    tls_intercept_enabled_ fl answers = true ->
+    text_ host = Ok h -> host <> [] -> port <> 0 -> connect h port = None ->
+    (chain_ok (ca_file fl) = false \/ name_ok (strip_brackets h) = false) ->
+    let hf := run_ fl host port answers fs0 p0 r0 evs in
+    up_buf (ps hf) = [] /\ up_wire (ps hf) = [] /\
+    map snd (cl_wire (ps hf)) ++ cl_buf (ps hf) = [K200] /\ plain_wire (cl_wire (ps hf)) /\
+    cl (ps hf) = ClPlain /\ up (ps hf) = UpDead /\
+    tr (ps hf) = [EConnect h port; EClientQueue K200; EUpstreamWrap (policy_call fl h)] /\
+    mode hf <> Running /\
+    (existsb is_FlushClient evs = true -> mode hf = Closed).
+  Proof.
+    intros (Hchain & Hname) Hsec Hen Htext Hhost Hport Hconn Hbad.
+    apply no_relay_when_handshake_raises with (e := SSLCertVerificationError); auto.
+    unfold policy_call. rewrite Hsec. simpl.
+    destruct Hbad as [Hbad|Hbad].
+    - apply Hchain; auto.
+    - eapply Hname; simpl; eauto.
+  Qed.
+
+  (* ================================================================ what handle_connect can do at all *)
+  Definition is_up_wrap (e : effect) : bool := match e with EUpstreamWrap _ => true | _ => false end.
+  Definition count_up_wraps (t : trace) : nat := length (filter is_up_wrap t).
+
+  Definition allowed_effect (fl : flags) (host : bytes) (port : N) (e : effect) : Prop :=
+    match e with
+    | EConnect h' p => text_ host = Ok h' /\ p = port
+    | EClientQueue pkt => pkt = K200 \/ pkt = bad_gateway_pkt fl
+    | EUpstreamWrap c => exists h, text_ host = Ok h /\ c = policy_call fl h
+    | e => exists h, text_ host = Ok h /\ client_side_effect fl h e
+    end.
+
+  Lemma client_side_allowed fl host port h t :
+    text_ host = Ok h -> Forall (client_side_effect fl h) t ->
+    Forall (allowed_effect fl host port) t /\ count_up_wraps t = 0%nat.
+  Proof.
+    intros Htext Hall. induction Hall as [|e t He Hall IH]; [split; [constructor|reflexivity]|].
+    destruct IH as (IH1 & IH2). split.
+    - constructor; [|assumption]. destruct e; simpl in *; try contradiction; eauto.
+    - unfold count_up_wraps in *. destruct e; simpl in *; try contradiction; assumption.
+  Qed.
+
+  Lemma connected_dec host port :
+    (exists h, text_ host = Ok h /\ host <> [] /\ port <> 0 /\ connect h port = None) \/
+    (host = [] \/ port = 0 \/ (exists e, text_ host = Err e) \/ exists h e, text_ host = Ok h /\ connect h port = Some e).
+  Proof.
+    destruct host as [|x t]; [right; auto|].
+    destruct (N.eq_dec port 0) as [->|Hp]; [right; auto|].
+    destruct (text_ (x :: t)) as [h|e] eqn:Ht; [|right; right; right; left; eauto].
+    destruct (connect h port) as [e|] eqn:Hc; [right; right; right; right; eauto|].
+    left. exists h. repeat split; auto. discriminate.
+  Qed.
+
+  Lemma orc_trace fl host port answers fs0 s' r :
+    on_request_complete_ fl host port answers (init_pst fs0) = (s', r) ->
+    Forall (allowed_effect fl host port) (tr s') /\ (count_up_wraps (tr s') <= 1)%nat.
+  Proof.
+    intros H. destruct (connected_dec host port) as [(h & Htext & Hhost & Hport & Hconn)|Hnc].
+    - rewrite (orc_connected fl host h port answers fs0 Htext Hhost Hport Hconn) in H.
+      assert (Hbase : Forall (allowed_effect fl host port) (tr (connected_pst fs0 h port)) /\
+                      count_up_wraps (tr (connected_pst fs0 h port)) = 0%nat).
+      { split; [|reflexivity]. repeat constructor; simpl; auto. }
+      destruct Hbase as (Hb1 & Hb2).
+      destruct (tls_intercept_enabled_ fl answers).
+      2:{ inv H. split; [assumption|]. rewrite Hb2. auto. }
+      rewrite intercept_unfold in H.
+      destruct (wrap_server_ fl host (connected_pst fs0 h port)) as [s1 r1] eqn:Hws.
+      apply wrap_server_spec in Hws as (_ & _ & _ & _ & _ & _ & Hr & _).
+      assert (Hs1 : Forall (allowed_effect fl host port) (tr s1) /\ (count_up_wraps (tr s1) <= 1)%nat).
+      { assert (Hext : forall h', text_ host = Ok h' ->
+                  Forall (allowed_effect fl host port) (tr (connected_pst fs0 h port) ++ [EUpstreamWrap (policy_call fl h')]) /\
+                  (count_up_wraps (tr (connected_pst fs0 h port) ++ [EUpstreamWrap (policy_call fl h')]) <= 1)%nat).
+        { intros h' Hh'. split; [apply Forall_app; split; [assumption|repeat constructor; simpl; eauto]|].
+          unfold count_up_wraps. rewrite filter_app, app_length. fold (count_up_wraps (tr (connected_pst fs0 h port))).
+          rewrite Hb2. simpl. auto. }
+        destruct r1 as [[]|e1].
+        - destruct Hr as (h' & e' & Ht' & _ & _ & _ & ->). auto.
+        - destruct Hr as (h' & p & Ht' & _ & _ & _ & ->). auto.
+        - destruct Hr as [(_ & _ & ->)|(h' & Ht' & _ & _ & _ & ->)]; [|auto].
+          split; [assumption|]. rewrite Hb2. auto. }
+      destruct Hs1 as (Hs1a & Hs1b).
+      destruct r1 as [[]|e1]; try (inv H; auto; fail).
+      destruct (wrap_client_ fl host s1) as [s2 r2] eqn:Hwc.
+      eapply wrap_client_spec in Hwc as (_ & _ & _ & _ & t & Ht & Hall & _); eauto.
+      destruct (client_side_allowed fl host port h t Htext Hall) as (Hta & Htb).
+      assert (Hs2 : Forall (allowed_effect fl host port) (tr s2) /\ (count_up_wraps (tr s2) <= 1)%nat).
+      { rewrite Ht. split; [apply Forall_app; auto|].
+        unfold count_up_wraps in *. rewrite filter_app, app_length, Htb. lia. }
+      destruct r2 as [[]|e2]; inv H; auto.
+    - destruct (orc_not_connected fl host port answers fs0 Hnc) as (t & e & Heq & _ & Ht).
+      rewrite Heq in H. inv H. simpl.
+      destruct Ht as [->|(h & Htext & ->)]; [split; [constructor|auto]|].
+      split; [repeat constructor; simpl; auto|]. unfold count_up_wraps. simpl. auto.
+  Qed.
+
+  (* handle_connect adds at most the queuing of the 502 reply, and never changes the kind of a connection *)
+  Lemma hc_after_orc fl host port answers fs0 p0 r0 s' r :
+    on_request_complete_ fl host port answers (init_pst fs0) = (s', r) ->
+    let h1 := handle_connect_ fl host port answers (init_h fs0 p0 r0) in
+    cl (ps h1) = cl s' /\ up (ps h1) = up s' /\ fs (ps h1) = fs s' /\
+    up_buf (ps h1) = up_buf s' /\ up_wire (ps h1) = up_wire s' /\ cl_wire (ps h1) = cl_wire s' /\
+    pipe h1 = p0 /\ resp h1 = r0 /\
+    (tr (ps h1) = tr s' /\ cl_buf (ps h1) = cl_buf s' \/
+     r = Raise ProxyConnectionFailed /\ tr (ps h1) = tr s' ++ [EClientQueue (bad_gateway_pkt fl)] /\
+     cl_buf (ps h1) = cl_buf s' ++ [bad_gateway_pkt fl]) /\
+    (mode h1 = Running <-> (r = Ret RetSocket \/ r = Ret (RetBool false))).
+  Proof.
+    intros H. unfold handle_connect. simpl ps. rewrite H.
+    destruct r as [[[]|]|e]; simpl.
+    - repeat split; auto; try (intros [|]; discriminate).
+      unfold after_handle_data_true. destruct (cl_buf s'); discriminate.
+    - repeat split; auto.
+    - repeat split; auto.
+    - destruct (is_HttpProtocolException e) eqn:Hhttp.
+      + destruct e; try discriminate; simpl; repeat split; auto; try (intros [|]; discriminate);
+          unfold after_handle_data_true; simpl; try (destruct (cl_buf s'); simpl; discriminate).
+      + destruct (is_OSError e); simpl; repeat split; auto; try (intros [|]; discriminate); try discriminate.
+        unfold after_reads_teared. destruct (cl_buf s'); discriminate.
+  Qed.
+
+  Lemma hc_trace fl host port answers fs0 p0 r0 :
+    let h1 := handle_connect_ fl host port answers (init_h fs0 p0 r0) in
+    Forall (allowed_effect fl host port) (tr (ps h1)) /\ (count_up_wraps (tr (ps h1)) <= 1)%nat.
+  Proof.
+    cbv zeta.
+    destruct (on_request_complete_ fl host port answers (init_pst fs0)) as [s' r] eqn:H.
+    destruct (orc_trace _ _ _ _ _ _ _ H) as (Ha & Hb).
+    destruct (hc_after_orc fl host port answers fs0 p0 r0 s' r H) as (_ & _ & _ & _ & _ & _ & _ & _ & [(-> & _)|(_ & -> & _)] & _).
+    - auto.
+    - split; [apply Forall_app; split; [assumption|repeat constructor; simpl; auto]|].
+      unfold count_up_wraps in *. rewrite filter_app, app_length. simpl. lia.
+  Qed.
+
+  (* ================================================================ the verification policy *)
+  Theorem verify_policy fl host port answers fs0 p0 r0 evs :
+    let hf := run_ fl host port answers fs0 p0 r0 evs in
+    (forall c, In (EUpstreamWrap c) (tr (ps hf)) -> exists h, text_ host = Ok h /\ c = policy_call fl h) /\
+    (count_up_wraps (tr (ps hf)) <= 1)%nat.
+  Proof.
+    cbv zeta. unfold run. destruct (fold_fixed fl evs (handle_connect_ fl host port answers (init_h fs0 p0 r0))) as (-> & _).
+    destruct (hc_trace fl host port answers fs0 p0 r0) as (Ha & Hb). split; [|assumption].
+    intros c Hin. rewrite Forall_forall in Ha. apply Ha in Hin. exact Hin.
+  Qed.
+
+  Lemma policy_call_fields fl h :
+    let c := policy_call fl h in
+    (wc_verify_mode c = CERT_NONE <-> insecure_tls_interception fl = true) /\
+    (insecure_tls_interception fl = false -> wc_verify_mode c = CERT_REQUIRED /\ wc_check_hostname c = true) /\
+    wc_server_hostname c = Some (strip_brackets h) /\
+    wc_cafile c = ca_file fl.
+  Proof.
+    unfold policy_call. simpl. destruct (insecure_tls_interception fl); simpl; repeat split; auto; try discriminate.
   Qed.
 End Facts.
